@@ -137,7 +137,10 @@ def backends():
 
 def direct_typecheck(ctx):
     """typing.typecheck itself: every literal kind against every allowed set the backends use"""
-    allowed_sets = [ast.String, (ast.Identifier, ast.String), (ast.String,), ast.Integer, (ast.Integer, ast.Float), ast.Boolean, (ast.Date, ast.DateTime)]
+    kinds = [ast.String, ast.Integer, ast.Float, ast.Boolean, ast.Date, ast.Time, ast.DateTime, ast.Duration, ast.GUID, ast.Geography, ast.List, ast.Identifier]
+    # every single class (class names that contain one another - Date / DateTime, Time / DateTime - must not be confused), every
+    # one-element tuple, every ordered pair, and the sets the backends use
+    allowed_sets = kinds + [(k,) for k in kinds] + [(a_, b_) for a_ in kinds for b_ in kinds if a_ is not b_] + [(ast.Identifier, ast.String), (ast.Integer, ast.Float)]
     for kind, lit in LITERALS.items():
         node = _ps.parse(_lx.tokenize(to_odata(lit)))
         cls = type(node)
